@@ -32,7 +32,7 @@ theorem cumsum_groups (w : Pt → Q) (gs : List Pt) (h : SDesc gs) (acc : Q) :
           simp only [ge, hn, if_false]; grind
         rw [e, sum_map_zero]
       rw [this]
-      have : ge g.s g.s = 1 := by unfold ge; simp [Rat.le_refl]
+      have : ge g.s g.s = 1 := by unfold ge; simp
       rw [this]; grind
     · apply List.map_congr_left
       intro y hy
@@ -90,10 +90,10 @@ theorem tp_add_fp_ne_zero (ls : List LS) (t : Q) (h : ∃ x ∈ ls, x.1 = t) :
   have e := Rat.natCast_eq_zero_iff.mp e
   cases hb : x.2 with
   | true =>
-    have : 0 < tpAt ls x.1 := List.countP_pos_iff.mpr ⟨x, hx, by simp [hb, Rat.le_refl]⟩
+    have : 0 < tpAt ls x.1 := List.countP_pos_iff.mpr ⟨x, hx, by simp [hb]⟩
     omega
   | false =>
-    have : 0 < fpAt ls x.1 := List.countP_pos_iff.mpr ⟨x, hx, by simp [hb, Rat.le_refl]⟩
+    have : 0 < fpAt ls x.1 := List.countP_pos_iff.mpr ⟨x, hx, by simp [hb]⟩
     omega
 
 /-! ### distinct ascending thresholds: uniqueness -/
@@ -139,7 +139,7 @@ theorem mem_insertDistinct (t u : Q) (l : List Q) : u ∈ insertDistinct t l ↔
     by_cases h1 : t < v
     · simp [h1]
     · by_cases h2 : t = v
-      · simp only [h1, h2, if_false, if_true, List.mem_cons]; grind
+      · simp only [h2, if_true, List.mem_cons]; grind
       · simp only [h1, h2, if_false, List.mem_cons, ih]; grind
 
 theorem insertDistinct_sorted (t : Q) (l : List Q) (h : l.Pairwise (· < ·)) :
@@ -328,7 +328,7 @@ theorem foldl_qmax (l : List Q) (init : Q) :
     (l.foldl qmax init = init ∨ l.foldl qmax init ∈ l) ∧ init ≤ l.foldl qmax init
       ∧ ∀ x ∈ l, x ≤ l.foldl qmax init := by
   induction l generalizing init with
-  | nil => simp [Rat.le_refl]
+  | nil => simp
   | cons y l ih =>
     obtain ⟨h1, h2, h3⟩ := ih (qmax init y)
     simp only [List.foldl_cons]
@@ -463,5 +463,185 @@ theorem select_zip {α β : Type} (m : List Bool) (l₁ : List α) (l₂ : List 
       cases l₂ with
       | nil => cases b <;> simp [select]
       | cons y l₂ => cases b <;> simp [select, ih]
+
+theorem reverse_zip {α β : Type} (l₁ : List α) (l₂ : List β) (h : l₁.length = l₂.length) :
+    l₁.reverse.zip l₂.reverse = (l₁.zip l₂).reverse := by
+  induction l₁ generalizing l₂ with
+  | nil => cases l₂ <;> simp
+  | cons a l₁ ih =>
+    cases l₂ with
+    | nil => simp at h
+    | cons b l₂ =>
+      have hl : l₁.length = l₂.length := by simpa using h
+      simp only [List.reverse_cons, List.zip_cons_cons]
+      rw [List.zip_append (by simpa using hl), ih l₂ hl]
+      rfl
+
+theorem cumsum_length (l : List Q) : (cumsum l).length = l.length := cumsumFrom_length 0 l
+
+/-- one row of the vectorised `_multiclass_precision_recall_curve_compute` (flip
+    first, compute everywhere, pad, then mask; unconditional `nan_to_num`) returns
+    exactly what `_compute_for_each_class` returns, for every input. -/
+theorem mcPrCurveSorted_eq (srt : List Pt) : mcPrCurveSorted srt = prCurveSorted srt := by
+  cases hs : srt with
+  | nil => rfl
+  | cons x0 r0 =>
+  rw [← hs]
+  have hne : srt ≠ [] := by rw [hs]; simp
+  have hcne : collapse srt ≠ [] := by
+    rw [hs]; obtain ⟨g, gs, hc, _⟩ := collapse_head_s x0 r0; rw [hc]; simp
+  have hm : (diffMask (srt.map (·.s))).length = srt.length := by rw [diffMask_length, List.length_map]
+  have hca : (cumsum (srt.map (·.a))).length = srt.length := by rw [cumsum_length, List.length_map]
+  have hcb : (cumsum (srt.map (·.b))).length = srt.length := by rw [cumsum_length, List.length_map]
+  -- both "total positives" are the sum of the `a` masses
+  have hA1 : (cumsum (srt.map (·.a))).reverse.head? = some (0 + (srt.map (·.a)).sum) := by
+    rw [List.head?_reverse]
+    exact getLast?_cumsumFrom 0 _ (by simpa using hne)
+  have hA2 : (select (diffMask (srt.map (·.s))) (cumsum (srt.map (·.a)))).getLast?
+      = some (0 + (srt.map (·.a)).sum) := by
+    unfold cumsum
+    rw [select_cumsum_a, getLast?_cumsumFrom 0 _ (by simpa using hcne)]
+    have := collapse_sum_a srt
+    show some (0 + ((collapse srt).map Pt.a).sum) = some (0 + (srt.map Pt.a).sum)
+    rw [this]
+  unfold mcPrCurveSorted prCurveSorted
+  simp only [hA1, hA2]
+  generalize hP : (0 : Q) + (srt.map (·.a)).sum = P at hA2
+  generalize hM : diffMask (srt.map (·.s)) = M at hm hA2
+  generalize hCA : cumsum (srt.map (·.a)) = CA at hca hA2
+  generalize hCB : cumsum (srt.map (·.b)) = CB at hcb
+  have hthr : (srt.map (·.s)).length = M.length := by rw [hm, List.length_map]
+  -- precision
+  have e1 : select (M.reverse ++ [true])
+      ((CA.reverse.zip CB.reverse).map (fun p => xdiv p.1 (p.1 + p.2)) ++ [XQ.val 1])
+      = (((select M CA).zip (select M CB)).map fun p => xdiv p.1 (p.1 + p.2)).reverse ++ [XQ.val 1] := by
+    rw [select_append _ _ _ _ (by simp [hm, hca, hcb]), reverse_zip _ _ (by rw [hca, hcb]),
+      List.map_reverse, select_reverse _ _ (by simp [hm, hca, hcb]), select_map, select_zip]
+    simp [select]
+  -- recall
+  have e2 : select (M.reverse ++ [true])
+      (CA.reverse.map (fun tp => nanTo1 (xdiv tp P)) ++ [XQ.val 0])
+      = ((select M CA).map fun tp => nanTo1 (xdiv tp P)).reverse ++ [XQ.val 0] := by
+    rw [select_append _ _ _ _ (by simp [hm, hca]), List.map_reverse,
+      select_reverse _ _ (by simp [hm, hca]), select_map]
+    simp [select]
+  have e3 : select M.reverse (srt.map (·.s)).reverse = (select M (srt.map (·.s))).reverse :=
+    select_reverse _ _ hthr.symm
+  rw [e1, e2, e3]
+  -- the conditional `nan_to_num` of the per-class routine
+  have e4 : (if (((select M CA).map fun tp => xdiv tp P).reverse ++ [XQ.val 0]).head? == some XQ.nan
+      then (((select M CA).map fun tp => xdiv tp P).reverse ++ [XQ.val 0]).map nanTo1
+      else ((select M CA).map fun tp => xdiv tp P).reverse ++ [XQ.val 0])
+      = ((select M CA).map fun tp => nanTo1 (xdiv tp P)).reverse ++ [XQ.val 0] := by
+    have hmap : (((select M CA).map fun tp => xdiv tp P).reverse ++ [XQ.val 0]).map nanTo1
+        = ((select M CA).map fun tp => nanTo1 (xdiv tp P)).reverse ++ [XQ.val 0] := by
+      simp [nanTo1, List.map_reverse, Function.comp_def]
+    by_cases hz : P = 0
+    · have hh : (((select M CA).map fun tp => xdiv tp P).reverse ++ [XQ.val 0]).head? = some XQ.nan := by
+        rw [List.head?_append, List.head?_reverse, List.getLast?_map, hA2]
+        simp [xdiv, hz]
+      rw [hh]
+      simp only [beq_self_eq_true, if_true]
+      exact hmap
+    · have hid : ((select M CA).map fun tp => nanTo1 (xdiv tp P)) = (select M CA).map fun tp => xdiv tp P := by
+        apply List.map_congr_left
+        intro tp _
+        simp [xdiv, hz, nanTo1]
+      have hh : ((((select M CA).map fun tp => xdiv tp P).reverse ++ [XQ.val 0]).head? == some XQ.nan) = false := by
+        rw [List.head?_append, List.head?_reverse, List.getLast?_map, hA2]
+        simp [xdiv, hz]
+      rw [hh, hid]
+      simp
+  rw [e4]
+
+theorem ovrPts_eq_lsPt (c : Nat) (col labs : List Q) :
+    ovrPts c col labs = (ovrLS c col labs).map lsPt := by
+  unfold ovrPts ovrLS
+  rw [List.map_map]
+  apply List.map_congr_left
+  intro p _
+  by_cases h : (p.2 == (c : Q)) = true <;> simp [lsPt, b2q, h] <;> grind
+
+theorem averagedX_val (avg : Avg) (per : List Q) : averagedX avg (per.map XQ.val) = averaged avg per := by
+  cases avg <;> simp [averagedX, averaged, allQ?_map_val]
+
+/-! ### small facts about the spec -/
+
+theorem maxOf_eq_none (l : List Q) (h : maxOf l = none) : l = [] := by
+  cases l with
+  | nil => rfl
+  | cons x xs =>
+    simp only [maxOf] at h
+    split at h <;> simp at h
+
+theorem maxOf_spec (l : List Q) (m : Q) (h : maxOf l = some m) : m ∈ l ∧ ∀ x ∈ l, x ≤ m := by
+  induction l generalizing m with
+  | nil => simp [maxOf] at h
+  | cons x xs ih =>
+    simp only [maxOf] at h
+    split at h
+    · rename_i hn
+      have := maxOf_eq_none xs hn
+      subst this
+      simp only [Option.some.injEq] at h
+      subst h
+      simp
+    · rename_i m' hm'
+      obtain ⟨h1, h2⟩ := ih m' hm'
+      simp only [Option.some.injEq] at h
+      by_cases hc : m' ≤ x
+      · simp only [hc, if_true] at h
+        subst h
+        refine ⟨List.mem_cons_self .., ?_⟩
+        intro y hy
+        rcases List.mem_cons.mp hy with rfl | hy
+        · exact Rat.le_refl
+        · exact Rat.le_trans (h2 y hy) hc
+      · simp only [hc, if_false] at h
+        subst h
+        refine ⟨List.mem_cons_of_mem _ h1, ?_⟩
+        intro y hy
+        rcases List.mem_cons.mp hy with rfl | hy
+        · grind
+        · exact h2 y hy
+
+theorem stepSum_ones_zeros {α : Type} (T : List α) (hT : T ≠ []) :
+    stepSum (T.map (fun _ => (1 : Q)) ++ [0]) (T.map (fun _ => (0 : Q)) ++ [1]) = 0 := by
+  induction T with
+  | nil => exact absurd rfl hT
+  | cons t T ih =>
+    cases T with
+    | nil => simp [stepSum]; grind
+    | cons t' T' =>
+      have := ih (by simp)
+      simp only [List.map_cons, List.cons_append, stepSum] at this ⊢
+      rw [this]; grind
+
+theorem precision_le_one (ls : List LS) (p : Q) (hp : p ∈ (prCurve ls).precision) : p ≤ 1 := by
+  simp only [prCurve, List.mem_append, List.mem_map, List.mem_singleton] at hp
+  rcases hp with ⟨t, _, rfl⟩ | rfl
+  · unfold precisionAt
+    have ha : (0 : Q) ≤ (tpAt ls t : Q) := Rat.natCast_nonneg
+    have hb : (0 : Q) ≤ (fpAt ls t : Q) := Rat.natCast_nonneg
+    generalize (tpAt ls t : Q) = a at ha
+    generalize (fpAt ls t : Q) = b at hb
+    by_cases hz : a + b = 0
+    · rw [hz, Rat.div_def, Rat.inv_zero, Rat.mul_zero]; decide +kernel
+    · have hpos : 0 < a + b := by grind
+      have h1 : a / (a + b) * (a + b) = a := by grind
+      apply Rat.not_lt.mp
+      intro hlt
+      have h2 := (Rat.mul_lt_mul_right hpos).mpr hlt
+      rw [h1] at h2
+      grind
+  · exact Rat.le_refl
+
+theorem mapM_congr {α β : Type} {f g : α → Except Err β} {l : List α}
+    (h : ∀ x ∈ l, f x = g x) : l.mapM f = l.mapM g := by
+  induction l with
+  | nil => rfl
+  | cons x l ih =>
+    rw [List.mapM_cons, List.mapM_cons, h x (List.mem_cons_self ..),
+      ih (fun y hy => h y (List.mem_cons_of_mem _ hy))]
 
 end TE.CurveL
